@@ -53,6 +53,7 @@ def generate(run_seed, tier):
         from checks.c06 import gen_toy
         mcfg, fit = gen_toy(c)
         mcfg['invalid_above'] = None
+        mcfg.pop('rows2d', None)      # (this check builds its own 1-D data)
         x = np.linspace(1.0, 2.0, mcfg['ngrid'])
         y = sum(p['value'] * x**k for k, p in enumerate(mcfg['mparams']))
         err = [float(0.02 * abs(v) + 0.01) for v in y]
@@ -80,7 +81,7 @@ def generate(run_seed, tier):
         mcfg = R.gen_model_cfg(c, family=c.choice(
             ['transmission', 'transmission', 'emission', 'directimage']))
         R.add_extra_contribs(c, mcfg, p=0.25)
-        mcfg['nlayers'] = c.randint(3, 6)
+        mcfg['nlayers'] = c.randint(2, 6)
         mcfg['opac']['ngrid'] = c.randint(12, 24)
         mcfg['kind'] = 'real'
         fit = S.gen_fit(c, mcfg, nmax=3, rich=True)
